@@ -36,6 +36,8 @@ enum Unit {
     /// one node bound to two outputs with m others between (outputs as given,
     /// repeats kept)
     FarRepeat { m: usize },
+    /// `half` simultaneously live values: JIT stack frames of several KiB
+    Huge { half: usize },
 }
 
 fn units(tier: Tier) -> Vec<Unit> {
@@ -68,6 +70,9 @@ fn units(tier: Tier) -> Vec<Unit> {
     }
     for m in 1..=16 {
         v.push(Unit::FarRepeat { m });
+    }
+    for half in [300usize, 1400] {
+        v.push(Unit::Huge { half });
     }
     v
 }
@@ -397,7 +402,7 @@ impl Check for C02 {
     }
     fn meta(&self, tier: Tier) -> Meta {
         Meta {
-            rule: "case = program with every non-constant node exported; programs: every opcode x operand form {reg/reg, same-reg, reg/imm, imm/reg} x (value alphabet V + op-specific boundary values)^2; every DAG up to the node bound over leaves {X,Y,2.5}, ops {neg,sub,min,add,sin}; fan families of width w (libm / atan2 / mod call-outs between live registers, w > 12 forces stack spills) and trees with up to 40 variables and 79 outputs; output lists in which one node is bound to two outputs with m = 1..16 other outputs between; JIT point evaluator vs VM point evaluator at every point; JIT SIMD evaluator vs VM many-point evaluator for EVERY slice length 0..=35 with each input slice placed both right before and right after a PROT_NONE guard page; per-node comparison bit-identical, NaN = NaN, min/max of two zeros may differ in sign (dependants then excluded)".into(),
+            rule: "case = program with every non-constant node exported; programs: every opcode x operand form {reg/reg, same-reg, reg/imm, imm/reg} x (value alphabet V + op-specific boundary values)^2; every DAG up to the node bound over leaves {X,Y,2.5}, ops {neg,sub,min,add,sin}; fan families of width w (libm / atan2 / mod call-outs between live registers, w > 12 forces stack spills) and trees with up to 40 variables and 79 outputs; output lists in which one node is bound to two outputs with m = 1..16 other outputs between; two huge programs with 300 and 1400 simultaneously live values (stack frames of several KiB); JIT point evaluator vs VM point evaluator at every point; JIT SIMD evaluator vs VM many-point evaluator for EVERY slice length 0..=35 with each input slice placed both right before and right after a PROT_NONE guard page; per-node comparison bit-identical, NaN = NaN, min/max of two zeros may differ in sign (dependants then excluded)".into(),
             bounds: match tier {
                 Tier::Quick => "DAG nodes <= 3, fan width <= 16".into(),
                 Tier::Thorough => "DAG nodes <= 4, fan width <= 24, every unary opcode as the fan call-out".into(),
@@ -474,6 +479,10 @@ impl Check for C02 {
                         }
                     }
                 }
+            }
+            Unit::Huge { half } => {
+                let p = prog::huge_prog(half, false);
+                check_program_roots(cx, &mut sub, &p, &generic, false, &[0, 1, 7, 8, 9, 35], true);
             }
             Unit::FarRepeat { m } => {
                 for variant in 0..2 {
